@@ -351,11 +351,11 @@ headers, kinds of statements and the names they bind) they had when the model wa
 loop, early exit or rebinding has been added that the model does not describe -/
 theorem modelled_functions_have_the_transcribed_shape :
     MlVerif.Gen.C05.shapeFit =
-      "if(len(y.shape) > 1 and y.shape[1] != 1){raise};def compute_z{deltas=;(epsilon,mult)=;r=;if(mult is not None){epsilonMult=;rMult=};return};if(not isinstance(X, numpy.ndarray)){if(hasattr(X, 'values')){X=}else{raise}};if(self.fit_intercept){Xm=}else{Xm=};clr=;W=;self.n_iter_=;lastE=;for(i in range(0, self.max_iter)){call fit;beta=;(W,epsilon)=;if(sample_weight is not None){WMult=;epsilonMult=};E=;self.n_iter_=;if(self.verbose){call print};if(lastE is not None and lastE == E){break};lastE=};if(self.fit_intercept){self.coef_=;self.intercept_=}else{self.coef_=;self.intercept_=};return" ∧
+      "sig(self, X, y, sample_weight=None)|if(len(y.shape) > 1 and y.shape[1] != 1){raise};def compute_z{deltas=;(epsilon,mult)=;r=;if(mult is not None){epsilonMult=;rMult=};return};if(not isinstance(X, numpy.ndarray)){if(hasattr(X, 'values')){X=}else{raise}};if(self.fit_intercept){Xm=}else{Xm=};clr=;W=;self.n_iter_=;lastE=;for(i in range(0, self.max_iter)){call fit;beta=;(W,epsilon)=;if(sample_weight is not None){WMult=;epsilonMult=};E=;self.n_iter_=;if(self.verbose){call print};if(lastE is not None and lastE == E){break};lastE=};if(self.fit_intercept){self.coef_=;self.intercept_=}else{self.coef_=;self.intercept_=};return" ∧
     MlVerif.Gen.C05.shapeEpsilon =
-      "diff=;epsilon=;if(quantile != 0.5){sign=;mult=;mult[]Mult=;mult[]Mult=}else{mult=};if(sample_weight is not None){epsilonMult=};return" ∧
+      "sig(y_true, y_pred, quantile, sample_weight=None)|diff=;epsilon=;if(quantile != 0.5){sign=;mult=;mult[]Mult=;mult[]Mult=}else{mult=};if(sample_weight is not None){epsilonMult=};return" ∧
     MlVerif.Gen.C05.shapeScore =
-      "pred=;if(self.quantile != 0.5){(epsilon,mult)=;if(mult is not None){epsilonMult=};if(sample_weight is not None){return};return};return" :=
+      "sig(self, X, y, sample_weight=None)|pred=;if(self.quantile != 0.5){(epsilon,mult)=;if(mult is not None){epsilonMult=};if(sample_weight is not None){return};return};return" :=
   ⟨rfl, rfl, rfl⟩
 
 /-! ### non-vacuity: concrete instances over `Rat` -/
